@@ -272,4 +272,125 @@ theorem C01_end_to_end_one_namespace {suppress : Bool} {fuel : Nat} {inherits : 
       renderKeyNs ((dl :: others).map Loc.name) ⟨nsKey, locales, bkiF⟩ p l ρ ot = some (Eval.eval ρ v) :=
   ns_end_to_end h hnd hnames htop hinh hsolid htab p hleaf l hl ρ ot
 
+/-! ## Examples: a three-locale project with `inherits`
+
+`locales = ["en", "fr", "fr-CA"]`, `default = "en"`, `inherits = { "fr-CA" = "fr" }`;
+
+* `en.json    = {"hello": "Hello {{ name }}", "bye": "Bye", "g": {"t": "x"}}`
+* `fr.json    = {"hello": "Bonjour {{ name }}", "bye": null}`
+* `fr-CA.json = {"g": {"t": "<b>y</b>"}}`
+
+`Pipeline.run` on it (evaluated with `#eval` while developing: the kernel cannot unfold the
+well-founded `locGet` / `get_keys_inner`) returns exactly `exOut` below, and `renderKey` gives
+`hello@fr-CA = "Bonjour Ann"` (fr-CA → fr), `bye@fr-CA = "Bye"` (fr-CA → fr: `null` → no `inherits`
+entry → default `en`), `g.t@fr = "x"` (absent group → default), `g.t@fr-CA = "<comp_b>y</comp_b>"`. -/
+
+private def en : Str := ['e','n']
+private def fr : Str := ['f','r']
+private def ca : Str := ['f','r','-','C','A']
+private def kHello : Str := ['h','e','l','l','o']
+private def kBye : Str := ['b','y','e']
+private def kG : Str := ['g']
+private def kT : Str := ['t']
+private def vName : Str := ['v','a','r','_','n','a','m','e']
+private def cB : Str := ['c','o','m','p','_','b']
+private def tHello : Str := ['H','e','l','l','o',' ']
+private def tBonjour : Str := ['B','o','n','j','o','u','r',' ']
+private def tBye : Str := ['B','y','e']
+
+/-- arguments: `name = "Ann"`, component `b` wraps its children in `<comp_b>…</comp_b>` -/
+private def ρx : Eval.Env where
+  var := fun k _ => if k == vName then ['A','n','n'] else []
+  comp := fun k c => ['<'] ++ k ++ ['>'] ++ c ++ ['<','/'] ++ k ++ ['>']
+  count := fun _ => ⟨2, 0⟩
+  cat := fun _ _ => .other
+
+private def exCfg : Config.Config :=
+  { default := en, locales := [en, fr, ca], namespaces := none, localesDir := [], inherits := [(ca, fr)] }
+
+/-- `CfgOK` is satisfiable by this configuration -/
+private theorem exCfgOK : CfgOK exCfg :=
+  ⟨⟨by simp [exCfg], by decide, by intro l hl; simp [exCfg] at hl⟩, rfl, by decide⟩
+
+/-- the locales of the resolved world (values as the parser leaves them; no foreign keys) -/
+private def hello (t : Str) : PV := .bloc [.lit (.str t none), .var vName .none, .lit (.str [] none)]
+private def enG : Loc := .mk kG en [(kT, .lit (.str ['x'] none))] [] 0
+private def caG : Loc :=
+  .mk kG ca [(kT, .bloc [.lit (.str [] none), .comp cB (.lit (.str ['y'] none)), .lit (.str [] none)])] [] 0
+private def enL : Loc :=
+  .mk en en [(kBye, .lit (.str tBye none)), (kG, .subkeys (some enG)), (kHello, hello tHello)] [] 0
+private def frL : Loc := .mk fr fr [(kBye, .dflt), (kHello, hello tBonjour)] [] 0
+private def caL : Loc := .mk ca ca [(kG, .subkeys (some caG))] [] 0
+private def exSrc : List Loc := [enL, frL, caL]
+
+/-- the spec side of the theorem on the project: which locale is effective, what it says -/
+example : effectiveLocale exCfg exSrc [kHello] ca = fr := by decide
+example : effectiveLocale exCfg exSrc [kBye] ca = en := by decide
+example : effectiveLocale exCfg exSrc [kBye] fr = en := by decide
+example : effectiveLocale exCfg exSrc [kG, kT] fr = en := by decide
+example : effectiveLocale exCfg exSrc [kG, kT] ca = ca := by decide
+example : sourceValue exSrc [kHello] fr = some (.bloc [.lit (.str tBonjour none), .var vName .none]) := by rfl
+example : sourceValue exSrc [kG, kT] ca = some (.comp cB (.lit (.str ['y'] none))) := by rfl
+example : Eval.eval ρx (.bloc [.lit (.str tBonjour none), .var vName .none])
+    = ['B','o','n','j','o','u','r',' ','A','n','n'] := by decide
+example : ∀ l ∈ exSrc, SolidKeys l.keys = true := by decide
+
+/-- what `check_locales` returns for the project (the only namespace of `Pipeline.run`'s output) -/
+private def exOut : Pipeline.NsOut where
+  key := none
+  locales :=
+    [.mk en en [(kBye, .lit (.str tBye (some 0))), (kG, .subkeys none),
+        (kHello, .bloc [.lit (.str tHello (some 2)), .var vName .none])] [tBye, ['x'], tHello] 3,
+     .mk fr fr [(kBye, .dflt), (kG, .subkeys none),
+        (kHello, .bloc [.lit (.str tBonjour (some 0)), .var vName .none])] [tBonjour] 1,
+     .mk ca ca [(kBye, .dflt), (kG, .subkeys none), (kHello, .dflt)] [['y']] 1]
+  keys :=
+    [(kBye, .value (.lit .string) ⟨en, [(fr, en), (ca, fr)]⟩),
+     (kG, .subkeys
+        [.mk kG en [(kT, .lit (.str ['x'] (some 1)))] [] 3,
+         .mk kG fr [(kT, .dflt)] [] 1,
+         .mk kG ca [(kT, .comp cB (.lit (.str ['y'] (some 0))))] [] 1]
+        [(kT, .value (.interpol { comps := [cB], vars := [] }) ⟨en, [(fr, en)]⟩)]),
+     (kHello, .value (.interpol { comps := [], vars := [(vName, { fmts := [.none], count := none })] })
+        ⟨en, [(ca, fr)]⟩)]
+
+/-- the generated accessors on it, both back-ends (kernel-evaluated) -/
+example : renderKeyNs exCfg.locales exOut [kHello] ca ρx .view
+    = some ['B','o','n','j','o','u','r',' ','A','n','n'] := by decide +kernel
+example : renderKeyNs exCfg.locales exOut [kHello] ca ρx .string
+    = some ['B','o','n','j','o','u','r',' ','A','n','n'] := by decide +kernel
+example : renderKeyNs exCfg.locales exOut [kHello] en ρx .view = some ['H','e','l','l','o',' ','A','n','n'] := by
+  decide +kernel
+example : renderKeyNs exCfg.locales exOut [kBye] ca ρx .view = some tBye := by decide +kernel
+example : renderKeyNs exCfg.locales exOut [kBye] fr ρx .display = some tBye := by decide +kernel
+example : renderKeyNs exCfg.locales exOut [kG, kT] fr ρx .view = some ['x'] := by decide +kernel
+example : renderKeyNs exCfg.locales exOut [kG, kT] ca ρx .string
+    = some ['<','c','o','m','p','_','b','>','y','<','/','c','o','m','p','_','b','>'] := by decide +kernel
+/-- a group is not an accessible key; an unknown locale has no `match` arm -/
+example : renderKeyNs exCfg.locales exOut [kG] ca ρx .view = none := by decide +kernel
+example : renderKeyNs exCfg.locales exOut [kBye] ['d','e'] ρx .view = none := by decide +kernel
+/-- where the values are: the nested key `g.t` of `fr-CA` (position 2) lives in the nested node and is
+    read against the **top-level** table `["y"]` of `fr-CA` -/
+example : storedIn exOut 2 [kG, kT] = some (.comp cB (.lit (.str ['y'] (some 0)))) ∧ tableOf exOut 2 = [['y']] :=
+  ⟨rfl, rfl⟩
+example : (leafAt exOut.keys [kG, kT]).isSome = true ∧ (leafAt exOut.keys [kG]).isSome = false := by decide
+
+/-- the theorem instantiated on the project (files as decoded trees); every hypothesis but the
+    outcome of the run is discharged -/
+private def exFiles : List ((Option Str × Str) × J) :=
+  [((none, en), .obj [(kHello, .str ['H','e','l','l','o',' ','{','{',' ','n','a','m','e',' ','}','}']),
+      (kBye, .str tBye), (kG, .obj [(kT, .str ['x'])])]),
+   ((none, fr), .obj [(kHello, .str ['B','o','n','j','o','u','r',' ','{','{',' ','n','a','m','e',' ','}','}']),
+      (kBye, .null)]),
+   ((none, ca), .obj [(kG, .obj [(kT, .str ['<','b','>','y','<','/','b','>'])])])]
+private def exInp : Pipeline.Input :=
+  { cfg := exCfg, files := exFiles,
+    oracle := { cats := fun _ _ => some [.one, .other], cat := fun _ _ _ => some .other } }
+
+example (out : Pipeline.Output) (h : Pipeline.run exInp = .ok out) (o : Pipeline.NsOut)
+    (ho : findNs out none = some o) (hleaf : (leafAt o.keys [kG, kT]).isSome = true) (ρ : Eval.Env) :
+    ∃ t, renderKey out none [kG, kT] ca ρ = some t ∧ renderKeyString out none [kG, kT] ca ρ = some t ∧
+      ∀ ot, renderKeyNs out.locales o [kG, kT] ca ρ ot = some t :=
+  C01_end_to_end_flavours exInp exCfgOK out h none o ho [kG, kT] hleaf ca (by decide) ρ
+
 end I18nVerif.Render
